@@ -127,7 +127,7 @@ fn layers_arg(case: &Value) -> Option<Ptr<raw::Layers>> {
         Some(prepared_layers())
     }
 }
-fn once(case: &Value) -> Vec<(String, String)> {
+fn once(case: &Value, rep: u64) -> Vec<(String, String)> {
     let mut out = Vec::new();
     match case["src"].as_str().unwrap_or("") {
         "gds" => {
@@ -161,8 +161,26 @@ fn once(case: &Value) -> Vec<(String, String)> {
             let mut lib = raw::Library::new("rawlib", raw::Units::Nano);
             lib.layers = prepared_layers();
             let cspecs = case["cells"].as_array().unwrap();
-            let ptrs: Vec<Ptr<raw::Cell>> =
-                cspecs.iter().map(|c| lib.cells.insert(raw::Cell::new(c["name"].as_str().unwrap()))).collect();
+            // The cell OBJECTS are allocated in listing order on even repetitions and in reverse order on odd ones (with a
+            // few throw-away allocations in between), so that two structurally identical libraries have their cells at
+            // differently ordered addresses: a result that depends on pointer values then differs between repetitions.
+            // "listed": false = the cell is reachable only through instances (it is not in lib.cells).
+            let mut slots: Vec<Option<Ptr<raw::Cell>>> = cspecs.iter().map(|_| None).collect();
+            let order: Vec<usize> = if rep % 2 == 0 { (0..cspecs.len()).collect() } else { (0..cspecs.len()).rev().collect() };
+            let mut ballast: Vec<Vec<u8>> = Vec::new();
+            for i in order {
+                slots[i] = Some(Ptr::new(raw::Cell::new(cspecs[i]["name"].as_str().unwrap())));
+                if rep % 2 == 1 {
+                    ballast.push(vec![0u8; 64 + 16 * i]);
+                }
+            }
+            let ptrs: Vec<Ptr<raw::Cell>> = slots.into_iter().map(|p| p.unwrap()).collect();
+            for (c, p) in cspecs.iter().zip(ptrs.iter()) {
+                if c["listed"].as_bool().unwrap_or(true) {
+                    lib.cells.push(p.clone());
+                }
+            }
+            drop(ballast);
             // optional per cell (generator audit 2026-10-02): "elems": [[layer number, purpose 0 Drawing | 1 Pin | 3 Obstruction, x, y, net|null]],
             // "abs": {"ports": [[[layer number, shapes], ..] per port], "blk": [[layer number, shapes], ..]}, "nolayout": true (abstract only)
             let keys: Vec<(i16, raw::LayerKey)> = {
@@ -265,10 +283,10 @@ fn once(case: &Value) -> Vec<(String, String)> {
 
 fn run(case: &Value) -> Value {
     let reps = case["reps"].as_u64().unwrap_or(3);
-    let first = once(case);
+    let first = once(case, 0);
     let mut unstable: Vec<String> = Vec::new();
-    for _ in 1..reps {
-        let again = once(case);
+    for rep_no in 1..reps {
+        let again = once(case, rep_no);
         for (a, b) in first.iter().zip(again.iter()) {
             if a != b && !unstable.contains(&a.0) {
                 unstable.push(a.0.clone());
